@@ -75,13 +75,16 @@ CLAIMED = {
           'Generated storage-schemas.conf / storage-aggregation.conf (missing keys, every unit suffix, multi-archive retentions, '
           'overlapping patterns; every order of section sets <=4) are reloaded by the daemon\'s own reload functions; metrics '
           'matching 0/1/many sections are stored and one real writeCachedDataPoints() pass runs against the in-memory backend; '
-          'recorded create() arguments must equal the evaluator.',
+          'recorded create() arguments must equal the evaluator; files get arbitrary mtimes before reloads. reload-race mode: the writer '
+          'creates metrics under the controlled scheduler while the reactor thread rewrites the files and reloads - every create must '
+          'match the old or the new file.',
           'Invalid retention strings not generated (daemon exits).', 'DESIGN.md 3/C19'),
   'C20': ('exploration', 'all-pairs window oracle over the grant log of the real TokenBucket / writer on a virtual clock',
           'Histories of blocking / non-blocking acquisitions, clock advances (0 .. 1e6) and limit changes run on the real '
           'TokenBucket with time/sleep doubled; every pair of grants in a regime is checked against rate*w + 2*burst and every '
           'blocking wait against deficit/rate. Writer level: real writeCachedDataPoints() with module-level buckets rebuilt by '
-          'carbon\'s own code, incl. shutdownModifyUpdateSpeed(); same oracle on create()/write() call times.',
+          'carbon\'s own code, incl. shutdownModifyUpdateSpeed(); same oracle on create()/write() call times. sched mode: the real writer '
+          'loop and the limit change at shutdown run as two threads under the controlled scheduler with util.py traced.',
           'Virtual clock; float tolerance 1e-6 plus clock resolution.', 'DESIGN.md 3/C20'),
   'C02': ('exploration', 'history + per-key sequential accounting over unique values, executed under a controlled thread scheduler',
           'Receiver and writer run as real threads over the real _MetricCache and CacheManagementHandler; a baton scheduler with '
@@ -122,19 +125,22 @@ CLAIMED = {
           'sequences of 30-200 events (1-3 destinations; batch sizes, dynamic router, line/pickle, constant/consistent-hashing RF '
           '1-2) are executed; acceptances are recorded at factory.sendDatapoint, re-routing at destinationDown and the fake '
           'factory, bytes decoded from every StringTransport; no duplicate, order, conservation, bound, drop accounting, sent '
-          'counter and close-only-when-empty are asserted after every event.',
-          'Fake reactor delivers life-cycle events in Twisted\'s order; post-stop buffer handling unchecked.', 'DESIGN.md 3/C07'),
+          'counter and close-only-when-empty are asserted after every event; transports pause their producer from inside write() like '
+          'Twisted\'s FileDescriptor; every sequence ends with a quiescence epilogue after which every queue must be empty.',
+          'Fake reactor delivers life-cycle events in Twisted\'s order; post-stop buffer handling unchecked.', 'DESIGN.md 3/C07, 9'),
   'C09': ('exploration', 'bounded-progress oracle at quiescence: controlled thread schedules (cache) and event sequences (relay)',
           'Cache side: real MetricLineReceivers (incl. clients connecting / disconnecting mid-run) feed chunks through carbon\'s own '
           'pipeline while the real writeForever() drains, under every 1-preemption, sampled 2-preemption, random and '
           'event-dispatch-targeted schedules for MAX_CACHE_SIZE 1..6; at the end no receiver may be paused while the cache is below '
           'its low watermark. Relay side: the C07 sequences plus a directed family (fill one destination until the pause, lose it '
           'under the dynamic router) followed by two quiescence epilogues (all up / lost destinations stay down); receivers incl. '
-          'one connected while paused must be resumed.',
+          'one connected while paused must be resumed. A cache daemon relaying its own metrics (RELAY_CACHE_METRICS, dynamic router, '
+          'no destination) is included: the resume event re-injects the relay buffer from inside the dispatch (deadlock = violation).',
           'Liveness restated as a check at quiescence; C09-d (unsynchronised event dispatch vs. disconnect) is a known finding.', 'DESIGN.md 3/C09'),
   'C08': ('exploration', 'shadow model per (aggregate, interval) with an independent pattern matcher, on a virtual clock through the real pipeline',
           'The real aggregator pipeline (rewrite:pre, aggregate, rewrite:post, relay sink) runs with LoopingCalls on a virtual clock; '
-          'all event sequences up to length L over an 8-event alphabet (arrive in-order / late / far-past / self-named, advance) and '
+          'all event sequences up to length L over a 9-event alphabet (arrive in-order / late / far-past / self-named, advance), a '
+          'replay/backfill family across flush ticks and '
           'random streams over generated rule sets (all 12 methods, <field>, <<field>>, *) are executed for MAX_AGGREGATION_INTERVALS '
           '1/2/5 x WRITE_BACK_FREQUENCY None/1/7 x name cache off/LRU/TTL x FORWARD_ALL; every emission is checked for alignment, '
           'new input and value (f over all values within the horizon, over a suffix containing the new ones after a permissible '
